@@ -10,8 +10,8 @@ from vf.oracles import same
 
 PROPERTY = "C01"
 WORKERS = {"quick": 16, "thorough": 16}
-CASES = {"quick": 2500, "thorough": 60000}
-TIME = {"quick": 50, "thorough": 1100}
+CASES = {"quick": 2500, "thorough": 15000}
+TIME = {"quick": 50, "thorough": 240}
 CASE_TIMEOUT = 60
 RULE = (
     "seeded random DAG programs (1-8 steps quick / 1-14 thorough, shared subtrees) over the op table in vf/gen.py; "
